@@ -376,7 +376,30 @@ def run_tlc_trace(tpath, workdir, idx, timeout=1800):
     return viol, nlines
 
 
-def run_and_validate(scens, nshards=NCPU, keep=False):
+def run_tlc_proto(tpath, workdir, idx, timeout=1800):
+    """Protocol conformance of one trace against the reference programs (spec/TraceProto.tla).
+    Returns dict(drift=[...], nchecked=n)."""
+    env = dict(os.environ)
+    env["TRACE"] = tpath
+    env["JAVA_TOOL_OPTIONS"] = "-Xss1g -Xmx3g -Dtlc2.tool.queue.IStateQueue=StateDeque"
+    md = os.path.join(workdir, f"mdp{idx}")
+    vout = os.path.join(workdir, f"proto{idx}.json")
+    env["VIOLOUT"] = vout
+    if os.path.getsize(tpath) == 0:
+        return {"drift": [], "nchecked": 0}
+    p = subprocess.run(["tlc", "-workers", "1", "-metadir", md, "-cleanup", "-noGenerateSpecTE",
+                        "-config", "TraceProto.cfg", "TraceProto.tla"], cwd=SPEC, env=env,
+                       stdout=subprocess.PIPE, stderr=subprocess.STDOUT, text=True, timeout=timeout)
+    out = p.stdout
+    if "Model checking completed. No error has been found." not in out or not os.path.exists(vout):
+        raise ToolError(f"TLC (TraceProto) did not accept trace {tpath}:\n{out[-3000:]}")
+    r = json.load(open(vout))
+    os.unlink(vout)
+    shutil.rmtree(md, ignore_errors=True)
+    return r
+
+
+def run_and_validate(scens, nshards=NCPU, keep=False, proto=False):
     """Run scenarios on the real code and validate every trace with TLC.
     Returns dict(viol=[(scen, monitor, line, detail)], hangs=[...], events=n, traces=n, wall_h, wall_t, workdir)."""
     work = tempfile.mkdtemp(prefix="cvrun-")
@@ -388,13 +411,22 @@ def run_and_validate(scens, nshards=NCPU, keep=False):
     with ThreadPoolExecutor(max_workers=nshards) as ex:
         vres = list(ex.map(lambda a: run_tlc_trace(a[1][0], work, a[0]), enumerate(res)))
     t2 = time.time()
+    drift, nchecked = [], 0
+    if proto:
+        with ThreadPoolExecutor(max_workers=nshards) as ex:
+            pres = list(ex.map(lambda a: run_tlc_proto(a[1][0], work, a[0]), enumerate(res)))
+        for r in pres:
+            drift.extend(r["drift"])
+            nchecked += r["nchecked"]
+    t3 = time.time()
     viol = []
     events = 0
     for v, n in vres:
         viol.extend(v)
         events += n
     hangs = [h for _, hs in res for h in hs]
-    out = dict(viol=viol, hangs=hangs, events=events, traces=len(scens), wall_h=t1 - t0, wall_t=t2 - t1, workdir=work)
+    out = dict(viol=viol, hangs=hangs, events=events, traces=len(scens), wall_h=t1 - t0, wall_t=t2 - t1, workdir=work,
+               drift=drift, proto_calls=nchecked, wall_p=t3 - t2)
     if not keep:
         shutil.rmtree(work, ignore_errors=True)
     return out
